@@ -20,12 +20,12 @@ def build(case):
                                 InternalServerError)
     from clastic.application import RerouteWSGI
 
-    def mk(i, beh):
+    def mk(i, beh, message=None):
         def ok():
             return Response('route%d' % i)
 
         def raise_():
-            raise ValueError('boom <b>%d</b>' % i)
+            raise ValueError(message if message is not None else 'boom <b>%d</b>' % i)
 
         def raise_http():
             raise BadRequest('bad %d' % i)
@@ -58,7 +58,7 @@ def build(case):
             kw['methods'] = r['methods']
         if r.get('slash_mode'):
             kw['slash_mode'] = r['slash_mode']
-        routes.append(Route(r['pattern'], mk(i, r.get('behavior', 'ok')), **kw))
+        routes.append(Route(r['pattern'], mk(i, r.get('behavior', 'ok'), r.get('message')), **kw))
     h = case.get('handler', 'default')
     if h == 'debug':
         eh = ContextualErrorHandler()
